@@ -747,6 +747,11 @@ func (w *World) finished() bool {
 	if !w.RunDone || w.apiLeft > 0 {
 		return false
 	}
+	for _, st := range w.lastStat {
+		if st == "Restarting" {
+			return false // a back-off is being waited out: the supervisor is going to launch a command
+		}
+	}
 	for _, f := range w.procs {
 		if f.Alive() {
 			return false
